@@ -328,6 +328,32 @@ func runC05(c *Ctx) {
 			runBatch(ci, reqs)
 		}
 	}
+	// response lists whose encoded length sits on a boundary of the length prefix's size classes (63|64, 16383|16384):
+	// sizes are 1 byte per absent entry, 148 per type-1 response, 259 per type-2 response
+	type shape struct{ n1, n2, absent int }
+	shapes := []shape{{0, 0, 63}, {0, 0, 64}, {0, 63, 66}, {0, 63, 67}}
+	if c.Thorough() {
+		shapes = append(shapes, shape{0, 63, 68}, shape{100, 6, 29}, shape{100, 6, 30}, shape{100, 6, 31}, shape{110, 0, 103}, shape{110, 0, 104})
+	}
+	for _, sh := range shapes {
+		var reqs []c05Req
+		for k := 0; k < sh.n1; k++ {
+			reqs = append(reqs, mkReq("K", 1, reg["1a"]))
+		}
+		for k := 0; k < sh.n2; k++ {
+			reqs = append(reqs, mkReq("K", 2, reg["2a"]))
+		}
+		for k := 0; k < sh.absent; k++ {
+			reqs = append(reqs, mkReq("U", 1+k%2, reg[[]string{"1a", "2a"}[k%2]]))
+		}
+		// absent entries spread through the list, not all at the end
+		for k := len(reqs) - 1; k > 0; k-- {
+			j := r.IntN(k + 1)
+			reqs[k], reqs[j] = reqs[j], reqs[k]
+		}
+		c.Count(fmt.Sprintf("list-length=%d", sh.n1*148+sh.n2*259+sh.absent))
+		runBatch(0, reqs)
+	}
 	// longer random batches
 	for i := 0; i < c.Pick(20, 400); i++ {
 		ci := r.IntN(len(cfgs))
